@@ -492,9 +492,14 @@ func c16RunWire(b core.Batch, r *core.Recorder) {
 							t.Close()
 						}
 					case "connect-target":
-						tgt := []string{o.Addr, "", "nohost", ":443", "[::1", "a:b:c", strings.Repeat("h", 3000) + ":1", "127.0.0.1:99999", "127.0.0.1:0x50", "h:443 extra"}[rng.IntN(10)]
+						tgt := []string{o.Addr, "", "nohost", ":443", "[::1", "a:b:c", strings.Repeat("h", 3000) + ":1", "127.0.0.1:99999", "127.0.0.1:0x50", "h:443 extra", "example.com", "localhost", "10.0.0.1", "[::1]", "host.example:"}[rng.IntN(15)]
 						reqBytes = []byte(fmt.Sprintf("CONNECT %s HTTP/1.1\r\nHost: %s\r\n\r\n", tgt, tgt))
-						wellFormedReq = false // only "no panic" is demanded for odd CONNECT targets
+						// an odd CONNECT target need not be tunnelled, but a CONNECT that is a well-formed HTTP request must be
+						// answered with some status, not with a closed connection
+						wellFormedReq = false
+						if pr, err := http.ReadRequest(bufio.NewReader(bytes.NewReader(reqBytes))); err == nil && pr.Method == "CONNECT" {
+							wellFormedReq = true
+						}
 						resp = c16connect(p.Addr, reqBytes)
 					}
 					r.Nontrivial(mode, string(reqBytes), respIdx)
